@@ -199,7 +199,7 @@ func C07(t Tier) int {
 		fmt.Println("HARNESS ERROR: genesis violates invariants:", p)
 		return 2
 	}
-	dl := deadline(t, 150*time.Second, 15*time.Minute)
+	dl := deadline(t, 120*time.Second, 15*time.Minute)
 	bounds := []explore.Bounds{{Depth: 3, V: 1, Deadline: dl}, {Depth: 4, V: 1, Deadline: dl}}
 	if t.Thorough {
 		bounds = []explore.Bounds{{Depth: 4, V: 1, Deadline: dl}, {Depth: 5, V: 1, Deadline: dl}, {Depth: 5, V: 2, Deadline: dl}, {Depth: 6, V: 2, Deadline: dl}}
